@@ -1,7 +1,1366 @@
 package main
 
-// tryReplay attempts to turn the solver's counterexample into a failing run of the real code.
-// It fills rep["replay"] and returns true when a failing input was reproduced.
-func tryReplay(P *Program, S *Specs, vcs []*FuncVC, f failure, rep map[string]any) bool {
+// Replay: turning a failed obligation into a failing run of the real code.
+//
+// The solvers almost never return a model for a failed obligation of this code base (the goals quantify over slices,
+// maps and ghost predicates and come back `unknown` or time out). For the class of obligations where a concrete run
+// can be judged — a postcondition (not over locals) of a top-level function or method whose parameters are plain data
+// (booleans, integers, strings, slices, maps, pointers and structs of those, errors, a context, a logger, an
+// io.Writer) and whose clause is evaluable (no ghost function without a real counterpart, no `fresh`) — the failed
+// clause is compiled to Go, the function is run on small generated inputs inside the real package (an in-package test
+// injected with `go test -overlay`, nothing is written into the repository), and the first input on which the real
+// code violates the clause is reported. Conjuncts that cannot be evaluated are dropped from a positive position
+// (checking a weaker clause: a violation of the weaker clause is a violation of the clause). If no input is found, or
+// the obligation is outside this class, the violation is reported with `no-failing-input-found` as before.
+
+import (
+	"bytes"
+	"context"
+	"encoding/json"
+	"fmt"
+	"go/ast"
+	"go/token"
+	"go/types"
+	"os"
+	"os/exec"
+	"path/filepath"
+	"regexp"
+	"sort"
+	"strconv"
+	"strings"
+	"time"
+)
+
+type goGen struct {
+	S        *Specs
+	ctx      *PkgCtx
+	pkg      *types.Package
+	imports  map[string]string // alias -> path actually used
+	pures    map[string]bool   // pure funcs to emit
+	rename   map[string]string // identifier renaming (params -> old_ copies, results)
+	bound    map[string]bool
+	errs     []string
+	dropped  int
+	neg      int               // 0: positive position, conjuncts may be dropped; 2: exact evaluation required
+	oldNames map[string]string // parameter -> its copy taken before the call
+}
+
+var errUneval = fmt.Errorf("unevaluable")
+
+// ghost functions with a real counterpart (Go expression templates over $1, $2, ...)
+var ghostReal = map[string]struct {
+	tmpl    string
+	imports []string
+}{
+	"nameString":    {"($1).String()", nil},
+	"cutBefore":     {"govcCut($1, $2, 0)", []string{"strings"}},
+	"cutAfter":      {"govcCut($1, $2, 1)", []string{"strings"}},
+	"cutFound":      {"strings.Contains($1, $2)", []string{"strings"}},
+	"fileBase":      {"filepath.Base($1)", []string{"path/filepath"}},
+	"joinPath":      {"filepath.Join($1, $2)", []string{"path/filepath"}},
+	"pjoin":         {"path.Join($1, $2)", []string{"path"}},
+	"lastBefore":    {"govcLastBefore($1, $2)", []string{"strings"}},
+	"semverCmp":     {"xsemver.Compare($1, $2)", []string{"xsemver=golang.org/x/mod/semver"}},
+	"sha256Of":      {"govcSha256($1)", []string{"crypto/sha256"}},
+	"hexOf":         {"hex.EncodeToString([]byte($1))", []string{"encoding/hex"}},
+	"timeAfter":     {"($1).After($2)", nil},
+	"timeBefore":    {"($1).Before($2)", nil},
+	"timeIsZero":    {"($1).IsZero()", nil},
+	"timeAdd":       {"($1).Add($2)", nil},
+	"modeIsDir":     {"($1).IsDir()", nil},
+	"modeIsRegular": {"($1).IsRegular()", nil},
+}
+
+func (g *goGen) useImport(spec string) {
+	alias, path := "", spec
+	if i := strings.Index(spec, "="); i >= 0 {
+		alias, path = spec[:i], spec[i+1:]
+	} else {
+		alias = path[strings.LastIndex(path, "/")+1:]
+	}
+	g.imports[alias] = path
+}
+
+func (g *goGen) expr(e ast.Expr) (string, error) {
+	switch n := e.(type) {
+	case *ast.ParenExpr:
+		s, err := g.expr(n.X)
+		return "(" + s + ")", err
+	case *ast.BasicLit:
+		return n.Value, nil
+	case *ast.Ident:
+		if r, ok := g.rename[n.Name]; ok {
+			return r, nil
+		}
+		if g.bound[n.Name] {
+			return n.Name, nil
+		}
+		switch n.Name {
+		case "true", "false", "nil":
+			return n.Name, nil
+		}
+		if g.pkg != nil && g.pkg.Scope().Lookup(n.Name) != nil {
+			return n.Name, nil
+		}
+		return "", fmt.Errorf("identifier %s: %w", n.Name, errUneval)
+	case *ast.SelectorExpr:
+		if id, ok := n.X.(*ast.Ident); ok && g.rename[id.Name] == "" && !g.bound[id.Name] {
+			if g.ctx != nil {
+				if p, ok := g.ctx.Imports[id.Name]; ok && (g.pkg == nil || g.pkg.Scope().Lookup(id.Name) == nil) {
+					if !ast.IsExported(n.Sel.Name) {
+						return "", errUneval
+					}
+					g.imports[id.Name] = p.Path()
+					return id.Name + "." + n.Sel.Name, nil
+				}
+			}
+		}
+		x, err := g.expr(n.X)
+		if err != nil {
+			return "", err
+		}
+		return x + "." + n.Sel.Name, nil
+	case *ast.StarExpr:
+		x, err := g.expr(n.X)
+		return "(*" + x + ")", err
+	case *ast.UnaryExpr:
+		save := g.neg
+		g.neg = 2
+		x, err := g.expr(n.X)
+		g.neg = save
+		return "(" + n.Op.String() + x + ")", err
+	case *ast.BinaryExpr:
+		if n.Op == token.LAND {
+			// a conjunct that cannot be evaluated is dropped (weaker clause)
+			a, ea := g.expr(n.X)
+			b, eb := g.expr(n.Y)
+			switch {
+			case ea == nil && eb == nil:
+				return "(" + a + " && " + b + ")", nil
+			case ea == nil && g.positive():
+				g.dropped++
+				return a, nil
+			case eb == nil && g.positive():
+				g.dropped++
+				return b, nil
+			}
+			if ea != nil {
+				return "", ea
+			}
+			return "", eb
+		}
+		save := g.neg
+		if n.Op != token.LOR {
+			g.neg = 2 // below a comparison / arithmetic nothing may be dropped
+		}
+		a, err := g.expr(n.X)
+		if err != nil {
+			g.neg = save
+			return "", err
+		}
+		b, err := g.expr(n.Y)
+		g.neg = save
+		if err != nil {
+			return "", err
+		}
+		switch n.Op {
+		case token.EQL:
+			return "govcEq(" + a + ", " + b + ")", nil
+		case token.NEQ:
+			return "(!govcEq(" + a + ", " + b + "))", nil
+		case token.SUB, token.MUL, token.QUO, token.REM, token.LSS, token.LEQ, token.GTR, token.GEQ:
+			// integer operands of different named types are compared / combined as int64
+			return "(govcN(" + a + ") " + n.Op.String() + " govcN(" + b + "))", nil
+		}
+		return "(" + a + " " + n.Op.String() + " " + b + ")", nil
+	case *ast.IndexExpr:
+		x, err := g.expr(n.X)
+		if err != nil {
+			return "", err
+		}
+		i, err := g.expr(n.Index)
+		if err != nil {
+			return "", err
+		}
+		return x + "[" + i + "]", nil
+	case *ast.SliceExpr:
+		x, err := g.expr(n.X)
+		if err != nil {
+			return "", err
+		}
+		lo, hi := "", ""
+		if n.Low != nil {
+			if lo, err = g.expr(n.Low); err != nil {
+				return "", err
+			}
+		}
+		if n.High != nil {
+			if hi, err = g.expr(n.High); err != nil {
+				return "", err
+			}
+		}
+		return x + "[" + lo + ":" + hi + "]", nil
+	case *ast.TypeAssertExpr:
+		x, err := g.expr(n.X)
+		if err != nil {
+			return "", err
+		}
+		t, err := g.typeExpr(n.Type)
+		if err != nil {
+			return "", err
+		}
+		return x + ".(" + t + ")", nil
+	case *ast.CompositeLit:
+		t, err := g.typeExpr(n.Type)
+		if err != nil {
+			return "", err
+		}
+		var parts []string
+		for _, el := range n.Elts {
+			if kv, ok := el.(*ast.KeyValueExpr); ok {
+				v, err := g.expr(kv.Value)
+				if err != nil {
+					return "", err
+				}
+				parts = append(parts, exprString(kv.Key)+": "+v)
+			} else {
+				v, err := g.expr(el)
+				if err != nil {
+					return "", err
+				}
+				parts = append(parts, v)
+			}
+		}
+		return t + "{" + strings.Join(parts, ", ") + "}", nil
+	case *ast.CallExpr:
+		return g.call(n)
+	}
+	return "", fmt.Errorf("%T: %w", e, errUneval)
+}
+
+// polarity bookkeeping: neg == 0 positive, 1 negative, 2 no dropping allowed
+func (g *goGen) positive() bool { return g.neg == 0 }
+
+func (g *goGen) typeExpr(e ast.Expr) (string, error) {
+	switch n := e.(type) {
+	case *ast.Ident:
+		if types.Universe.Lookup(n.Name) != nil {
+			return n.Name, nil
+		}
+		if g.pkg != nil && g.pkg.Scope().Lookup(n.Name) != nil {
+			return n.Name, nil
+		}
+		return "", errUneval
+	case *ast.SelectorExpr:
+		if id, ok := n.X.(*ast.Ident); ok && g.ctx != nil {
+			if p, ok := g.ctx.Imports[id.Name]; ok && ast.IsExported(n.Sel.Name) {
+				g.imports[id.Name] = p.Path()
+				return id.Name + "." + n.Sel.Name, nil
+			}
+		}
+	case *ast.StarExpr:
+		t, err := g.typeExpr(n.X)
+		return "*" + t, err
+	case *ast.ArrayType:
+		if n.Len == nil {
+			t, err := g.typeExpr(n.Elt)
+			return "[]" + t, err
+		}
+	case *ast.MapType:
+		k, err := g.typeExpr(n.Key)
+		if err != nil {
+			return "", err
+		}
+		v, err := g.typeExpr(n.Value)
+		return "map[" + k + "]" + v, err
+	case *ast.InterfaceType:
+		if n.Methods == nil || len(n.Methods.List) == 0 {
+			return "interface{}", nil
+		}
+	}
+	return "", errUneval
+}
+
+func (g *goGen) quant(n *ast.CallExpr, universal bool) (string, error) {
+	name, ok := identName(n.Args[0])
+	if !ok {
+		return "", errUneval
+	}
+	if len(n.Args) != 4 {
+		return "", fmt.Errorf("quantifier over a type: %w", errUneval)
+	}
+	save := g.neg
+	g.neg = 2
+	lo, err := g.expr(n.Args[1])
+	if err != nil {
+		g.neg = save
+		return "", err
+	}
+	hi, err := g.expr(n.Args[2])
+	g.neg = save
+	if err != nil {
+		return "", err
+	}
+	was := g.bound[name]
+	g.bound[name] = true
+	if !universal && g.neg == 0 {
+		g.neg = 2 // dropping a conjunct under an existential strengthens nothing: not allowed
+	}
+	body, err := g.expr(n.Args[3])
+	g.neg = save
+	g.bound[name] = was
+	if err != nil {
+		return "", err
+	}
+	if universal {
+		return fmt.Sprintf("func() bool { for %s := int(%s); %s < int(%s); %s++ { if !(%s) { return false } }; return true }()", name, lo, name, hi, name, body), nil
+	}
+	return fmt.Sprintf("func() bool { for %s := int(%s); %s < int(%s); %s++ { if %s { return true } }; return false }()", name, lo, name, hi, name, body), nil
+}
+
+func (g *goGen) call(n *ast.CallExpr) (string, error) {
+	fn, isIdent := identName(n.Fun)
+	arg := func(i int) (string, error) { return g.expr(n.Args[i]) }
+	strict := func(f func() (string, error)) (string, error) {
+		save := g.neg
+		g.neg = 2
+		s, err := f()
+		g.neg = save
+		return s, err
+	}
+	if isIdent {
+		switch fn {
+		case "implies":
+			save := g.neg
+			g.neg = 2 // the antecedent must be evaluated exactly
+			a, err := g.expr(n.Args[0])
+			g.neg = save
+			if err != nil {
+				return "", err
+			}
+			b, err := g.expr(n.Args[1])
+			if err != nil {
+				return "", err
+			}
+			return "(!(" + a + ") || (" + b + "))", nil
+		case "iff":
+			return strict(func() (string, error) {
+				a, err := arg(0)
+				if err != nil {
+					return "", err
+				}
+				b, err := arg(1)
+				return "((" + a + ") == (" + b + "))", err
+			})
+		case "forall":
+			return g.quant(n, true)
+		case "exists":
+			return g.quant(n, false)
+		case "forallkeys", "existskey":
+			k, ok := identName(n.Args[0])
+			if !ok || len(n.Args) != 3 {
+				return "", errUneval
+			}
+			m, err := strict(func() (string, error) { return arg(1) })
+			if err != nil {
+				return "", err
+			}
+			was := g.bound[k]
+			g.bound[k] = true
+			save := g.neg
+			if fn == "existskey" && g.neg == 0 {
+				g.neg = 2
+			}
+			body, err := g.expr(n.Args[2])
+			g.neg = save
+			g.bound[k] = was
+			if err != nil {
+				return "", err
+			}
+			if fn == "forallkeys" {
+				return fmt.Sprintf("func() bool { for %s := range %s { if !(%s) { return false } }; return true }()", k, m, body), nil
+			}
+			return fmt.Sprintf("func() bool { for %s := range %s { if %s { return true } }; return false }()", k, m, body), nil
+		case "old":
+			save := g.rename
+			g.rename = map[string]string{}
+			for k, v := range save {
+				g.rename[k] = v
+			}
+			for k, v := range g.oldNames {
+				g.rename[k] = v
+			}
+			s, err := strict(func() (string, error) { return arg(0) })
+			g.rename = save
+			return s, err
+		case "len", "cap":
+			s, err := strict(func() (string, error) { return arg(0) })
+			return "int(" + fn + "(" + s + "))", err
+		case "has":
+			return strict(func() (string, error) {
+				m, err := arg(0)
+				if err != nil {
+					return "", err
+				}
+				k, err := arg(1)
+				return "govcHas(" + m + ", " + k + ")", err
+			})
+		case "nonnil":
+			s, err := strict(func() (string, error) { return arg(0) })
+			return "(" + s + " != nil)", err
+		case "ite":
+			return strict(func() (string, error) {
+				c, err := arg(0)
+				if err != nil {
+					return "", err
+				}
+				a, err := arg(1)
+				if err != nil {
+					return "", err
+				}
+				b, err := arg(2)
+				return "govcIte(" + c + ", " + a + ", " + b + ")", err
+			})
+		case "typeis":
+			return strict(func() (string, error) {
+				x, err := arg(0)
+				if err != nil {
+					return "", err
+				}
+				t, err := g.typeExpr(n.Args[1])
+				if err != nil {
+					return "", err
+				}
+				return "func() bool { _, ok := interface{}(" + x + ").(" + t + "); return ok }()", nil
+			})
+		case "box":
+			s, err := strict(func() (string, error) { return arg(0) })
+			return "interface{}(" + s + ")", err
+		case "errIs":
+			g.useImport("errors")
+			return strict(func() (string, error) {
+				a, err := arg(0)
+				if err != nil {
+					return "", err
+				}
+				b, err := arg(1)
+				return "errors.Is(" + a + ", " + b + ")", err
+			})
+		case "contains", "hasprefix", "hassuffix":
+			g.useImport("strings")
+			f := map[string]string{"contains": "Contains", "hasprefix": "HasPrefix", "hassuffix": "HasSuffix"}[fn]
+			return strict(func() (string, error) {
+				a, err := arg(0)
+				if err != nil {
+					return "", err
+				}
+				b, err := arg(1)
+				return "strings." + f + "(string(" + a + "), string(" + b + "))", err
+			})
+		case "in_re":
+			g.useImport("regexp")
+			return strict(func() (string, error) {
+				a, err := arg(0)
+				if err != nil {
+					return "", err
+				}
+				b, err := arg(1)
+				return "regexp.MustCompile(" + b + ").MatchString(string(" + a + "))", err
+			})
+		case "substr":
+			return strict(func() (string, error) {
+				a, err := arg(0)
+				if err != nil {
+					return "", err
+				}
+				lo, err := arg(1)
+				if err != nil {
+					return "", err
+				}
+				hi, err := arg(2)
+				return "govcSubstr(" + a + ", int(" + lo + "), int(" + hi + "))", err
+			})
+		case "max", "min":
+			return strict(func() (string, error) {
+				a, err := arg(0)
+				if err != nil {
+					return "", err
+				}
+				b, err := arg(1)
+				return fn + "(" + a + ", " + b + ")", err
+			})
+		case "zero":
+			t, err := g.typeExpr(n.Args[0])
+			if err != nil {
+				return "", err
+			}
+			return "(*new(" + t + "))", nil
+		case "string":
+			s, err := strict(func() (string, error) { return arg(0) })
+			return "string(" + s + ")", err
+		case "param":
+			if pn, ok := identName(n.Args[0]); ok {
+				return "in_" + pn, nil
+			}
+			return "", errUneval
+		case "fresh", "newsince", "sameobj", "allocated", "visited", "cardvisited", "loopentry", "ranged", "unboxptr", "arrstr", "bitand", "bitor":
+			return "", fmt.Errorf("%s: %w", fn, errUneval)
+		}
+		if pf := g.S.Pure[fn]; pf != nil {
+			var as []string
+			s, err := strict(func() (string, error) {
+				for i := range n.Args {
+					a, err := arg(i)
+					if err != nil {
+						return "", err
+					}
+					as = append(as, a)
+				}
+				return "", nil
+			})
+			_ = s
+			if err != nil {
+				return "", err
+			}
+			if pf.Body == nil {
+				gr, ok := ghostReal[fn]
+				if !ok || pf.State {
+					return "", fmt.Errorf("ghost %s: %w", fn, errUneval)
+				}
+				out := gr.tmpl
+				for i, a := range as {
+					out = strings.ReplaceAll(out, "$"+strconv.Itoa(i+1), a)
+				}
+				for _, im := range gr.imports {
+					g.useImport(im)
+				}
+				return out, nil
+			}
+			g.pures[fn] = true
+			return "govcPure_" + fn + "(" + strings.Join(as, ", ") + ")", nil
+		}
+		// conversion to a type of the package or a basic type
+		if len(n.Args) == 1 {
+			if t, err := g.typeExpr(n.Fun); err == nil {
+				s, err := strict(func() (string, error) { return arg(0) })
+				return t + "(" + s + ")", err
+			}
+		}
+		return "", fmt.Errorf("call %s: %w", fn, errUneval)
+	}
+	if len(n.Args) == 1 {
+		if t, err := g.typeExpr(n.Fun); err == nil {
+			s, err := strict(func() (string, error) { return arg(0) })
+			return t + "(" + s + ")", err
+		}
+	}
+	return "", fmt.Errorf("call %s: %w", exprString(n.Fun), errUneval)
+}
+
+// goTypeString renders a type as Go source relative to package pkg, recording imports; ok is false for types the test
+// file cannot name (unexported types of other packages).
+func (g *goGen) goTypeString(t types.Type) (string, bool) {
+	ok := true
+	s := types.TypeString(t, func(p *types.Package) string {
+		if g.pkg != nil && p.Path() == g.pkg.Path() {
+			return ""
+		}
+		alias := p.Name()
+		if prev, dup := g.imports[alias]; dup && prev != p.Path() {
+			alias = alias + strconv.Itoa(len(g.imports))
+		}
+		g.imports[alias] = p.Path()
+		return alias
+	})
+	var visit func(t types.Type, d int)
+	visit = func(t types.Type, d int) {
+		if d > 6 {
+			return
+		}
+		switch x := t.(type) {
+		case *types.Named:
+			if o := x.Obj(); o.Pkg() != nil && (g.pkg == nil || o.Pkg().Path() != g.pkg.Path()) && !o.Exported() {
+				ok = false
+			}
+			if ta := x.TypeArgs(); ta != nil {
+				for i := 0; i < ta.Len(); i++ {
+					visit(ta.At(i), d+1)
+				}
+			}
+		case *types.Pointer:
+			visit(x.Elem(), d+1)
+		case *types.Slice:
+			visit(x.Elem(), d+1)
+		case *types.Array:
+			visit(x.Elem(), d+1)
+		case *types.Map:
+			visit(x.Key(), d+1)
+			visit(x.Elem(), d+1)
+		case *types.Signature, *types.Chan:
+			ok = false
+		}
+	}
+	visit(t, 0)
+	return s, ok
+}
+
+// generatable: can the harness build values of this type?
+func generatable(t types.Type, depth int) bool {
+	if depth > 5 {
+		return true // deeper levels are left zero
+	}
+	switch x := t.(type) {
+	case *types.Named:
+		switch typeString(x) {
+		case "context.Context", "github.com/notaryproject/notation-go/log.Logger", "io.Writer", "error", "time.Time", "time.Duration":
+			return true
+		}
+		return generatable(x.Underlying(), depth+1)
+	case *types.Basic:
+		return x.Info()&(types.IsBoolean|types.IsInteger|types.IsString) != 0
+	case *types.Pointer:
+		return generatable(x.Elem(), depth+1)
+	case *types.Slice:
+		return generatable(x.Elem(), depth+1)
+	case *types.Map:
+		return generatable(x.Key(), depth+1) && generatable(x.Elem(), depth+1)
+	case *types.Struct:
+		return true // fields that cannot be generated stay zero
+	case *types.Interface:
+		return x.Empty() || typeString(t) == "error"
+	}
 	return false
 }
+
+const replayHelpers = `
+func govcHas[K comparable, V any](m map[K]V, k K) bool { _, ok := m[k]; return ok }
+func govcN[T ~int | ~int8 | ~int16 | ~int32 | ~int64 | ~uint | ~uint8 | ~uint16 | ~uint32 | ~uint64 | ~uintptr](x T) int64 {
+	return int64(x)
+}
+func govcIsNil(a interface{}) bool {
+	if a == nil {
+		return true
+	}
+	v := reflect.ValueOf(a)
+	switch v.Kind() {
+	case reflect.Ptr, reflect.Map, reflect.Slice, reflect.Func, reflect.Interface, reflect.Chan:
+		return v.IsNil()
+	}
+	return false
+}
+func govcEq(a, b interface{}) (eq bool) {
+	if govcIsNil(a) || govcIsNil(b) {
+		return govcIsNil(a) && govcIsNil(b)
+	}
+	va, vb := reflect.ValueOf(a), reflect.ValueOf(b)
+	if va.CanInt() && vb.CanInt() {
+		return va.Int() == vb.Int()
+	}
+	if va.CanUint() && vb.CanUint() {
+		return va.Uint() == vb.Uint()
+	}
+	if (va.CanInt() && vb.CanUint()) || (va.CanUint() && vb.CanInt()) {
+		var x int64
+		var y uint64
+		if va.CanInt() {
+			x, y = va.Int(), vb.Uint()
+		} else {
+			x, y = vb.Int(), va.Uint()
+		}
+		return x >= 0 && uint64(x) == y
+	}
+	if va.Kind() == reflect.String && vb.Kind() == reflect.String {
+		return va.String() == vb.String()
+	}
+	if va.Kind() == reflect.Bool && vb.Kind() == reflect.Bool {
+		return va.Bool() == vb.Bool()
+	}
+	if va.Kind() == reflect.Slice && vb.Kind() == reflect.Slice || va.Kind() == reflect.Map && vb.Kind() == reflect.Map {
+		// slices and maps are compared as the references they are
+		return va.Pointer() == vb.Pointer() && va.Len() == vb.Len()
+	}
+	defer func() {
+		if recover() != nil {
+			eq = reflect.DeepEqual(a, b)
+		}
+	}()
+	return a == b
+}
+func govcIte[T any](c bool, a, b T) T { if c { return a }; return b }
+func govcSubstr(s string, lo, hi int) string { if lo < 0 || hi > len(s) || lo > hi { return "" }; return s[lo:hi] }
+func govcCut(s, sep string, part int) string { b, a, _ := strings.Cut(s, sep); if part == 0 { return b }; return a }
+func govcLastBefore(s, sep string) string { i := strings.LastIndex(s, sep); if i < 0 { return s }; return s[:i] }
+func govcSha256(s string) string { h := sha256.Sum256([]byte(s)); return string(h[:]) }
+
+type govcGen struct {
+	r      *rand.Rand
+	strs   []string
+	recent []string // strings already used in this trial: reused and mutated so that inputs relate to each other
+}
+
+func (g *govcGen) str() string {
+	s := g.str0()
+	if len(g.recent) < 64 {
+		g.recent = append(g.recent, s)
+	}
+	return s
+}
+
+func (g *govcGen) str0() string {
+	if len(g.recent) > 0 && g.r.Intn(3) == 0 {
+		s := g.recent[g.r.Intn(len(g.recent))]
+		switch g.r.Intn(7) {
+		case 0, 1:
+			return s
+		case 2:
+			return strings.ToUpper(s)
+		case 3:
+			return strings.ToLower(s)
+		case 4:
+			if len(s) > 0 {
+				return s[:len(s)-1]
+			}
+		case 5:
+			return s + g.strs[g.r.Intn(len(g.strs))]
+		default:
+			b := []byte(s)
+			if len(b) > 0 {
+				i := g.r.Intn(len(b))
+				switch {
+				case b[i] >= 'a' && b[i] <= 'z':
+					b[i] -= 32
+				case b[i] >= 'A' && b[i] <= 'Z':
+					b[i] += 32
+				default:
+					b[i] = "a0.-"[g.r.Intn(4)]
+				}
+			}
+			return string(b)
+		}
+		return s
+	}
+	switch g.r.Intn(6) {
+	case 0:
+		return ""
+	case 1, 2, 3:
+		return g.strs[g.r.Intn(len(g.strs))]
+	case 4:
+		a, b := g.strs[g.r.Intn(len(g.strs))], g.strs[g.r.Intn(len(g.strs))]
+		return a + b
+	}
+	const al = "abAB01.-_:/*=, @+"
+	n := g.r.Intn(5)
+	b := make([]byte, n)
+	for i := range b {
+		b[i] = al[g.r.Intn(len(al))]
+	}
+	return string(b)
+}
+
+var (
+	govcErrT    = reflect.TypeOf((*error)(nil)).Elem()
+	govcCtxT    = reflect.TypeOf((*context.Context)(nil)).Elem()
+	govcWriterT = reflect.TypeOf((*io.Writer)(nil)).Elem()
+	govcTimeT   = reflect.TypeOf(time.Time{})
+)
+
+func (g *govcGen) fill(v reflect.Value, depth int) {
+	if !v.CanSet() {
+		return
+	}
+	t := v.Type()
+	switch {
+	case t == govcTimeT:
+		switch g.r.Intn(4) {
+		case 0:
+		case 1:
+			v.Set(reflect.ValueOf(time.Now().Add(-time.Hour)))
+		case 2:
+			v.Set(reflect.ValueOf(time.Now().Add(time.Hour)))
+		default:
+			v.Set(reflect.ValueOf(time.Unix(int64(g.r.Intn(4)), 0)))
+		}
+		return
+	case t == govcErrT:
+		if g.r.Intn(2) == 0 {
+			v.Set(reflect.ValueOf(errors.New("e" + strconv.Itoa(g.r.Intn(3)))))
+		}
+		return
+	case t == govcCtxT:
+		v.Set(reflect.ValueOf(context.Background()))
+		return
+	case t == govcWriterT:
+		v.Set(reflect.ValueOf(&govcWriter{max: g.r.Intn(6) - 1, fail: g.r.Intn(4) == 0}))
+		return
+	}
+	if gl, ok := govcSpecial(t); ok {
+		v.Set(gl)
+		return
+	}
+	switch t.Kind() {
+	case reflect.Bool:
+		v.SetBool(g.r.Intn(2) == 0)
+	case reflect.Int, reflect.Int8, reflect.Int16, reflect.Int32, reflect.Int64:
+		v.SetInt(int64(g.r.Intn(9) - 2))
+	case reflect.Uint, reflect.Uint8, reflect.Uint16, reflect.Uint32, reflect.Uint64:
+		v.SetUint(uint64(g.r.Intn(8)))
+	case reflect.String:
+		v.SetString(g.str())
+	case reflect.Ptr:
+		if depth < 4 && g.r.Intn(8) != 0 {
+			p := reflect.New(t.Elem())
+			g.fill(p.Elem(), depth+1)
+			v.Set(p)
+		}
+	case reflect.Slice:
+		if depth < 4 {
+			n := g.r.Intn(4)
+			if n == 0 && g.r.Intn(2) == 0 {
+				return
+			}
+			s := reflect.MakeSlice(t, n, n)
+			for i := 0; i < n; i++ {
+				g.fill(s.Index(i), depth+1)
+			}
+			v.Set(s)
+		}
+	case reflect.Map:
+		if depth < 4 {
+			n := g.r.Intn(4)
+			if n == 0 && g.r.Intn(2) == 0 {
+				return
+			}
+			m := reflect.MakeMap(t)
+			for i := 0; i < n; i++ {
+				k := reflect.New(t.Key()).Elem()
+				g.fill(k, depth+1)
+				e := reflect.New(t.Elem()).Elem()
+				g.fill(e, depth+1)
+				m.SetMapIndex(k, e)
+			}
+			v.Set(m)
+		}
+	case reflect.Struct:
+		if depth < 5 {
+			for i := 0; i < t.NumField(); i++ {
+				g.fill(v.Field(i), depth+1)
+			}
+		}
+	case reflect.Interface:
+		if t.NumMethod() == 0 {
+			switch g.r.Intn(4) {
+			case 0:
+			case 1:
+				v.Set(reflect.ValueOf(g.str()))
+			case 2:
+				v.Set(reflect.ValueOf(g.r.Intn(5)))
+			default:
+				v.Set(reflect.ValueOf(map[string]interface{}{g.str(): g.str()}))
+			}
+		}
+	}
+}
+
+type govcWriter struct {
+	max   int
+	fail  bool
+	total int
+}
+
+func (w *govcWriter) Write(p []byte) (int, error) {
+	n := len(p)
+	if w.max >= 0 && n > w.max {
+		n = w.max
+	}
+	w.total += n
+	if w.fail || n < len(p) {
+		return n, errors.New("short write")
+	}
+	return n, nil
+}
+
+func govcCopy(v reflect.Value, depth int) reflect.Value {
+	if depth > 8 || !v.IsValid() {
+		return v
+	}
+	switch v.Kind() {
+	case reflect.Ptr:
+		if v.IsNil() {
+			return v
+		}
+		p := reflect.New(v.Type().Elem())
+		p.Elem().Set(govcCopy(v.Elem(), depth+1))
+		return p
+	case reflect.Slice:
+		if v.IsNil() {
+			return v
+		}
+		s := reflect.MakeSlice(v.Type(), v.Len(), v.Len())
+		for i := 0; i < v.Len(); i++ {
+			s.Index(i).Set(govcCopy(v.Index(i), depth+1))
+		}
+		return s
+	case reflect.Map:
+		if v.IsNil() {
+			return v
+		}
+		m := reflect.MakeMap(v.Type())
+		for _, k := range v.MapKeys() {
+			m.SetMapIndex(k, govcCopy(v.MapIndex(k), depth+1))
+		}
+		return m
+	case reflect.Struct:
+		c := reflect.New(v.Type()).Elem()
+		c.Set(v)
+		for i := 0; i < v.NumField(); i++ {
+			if c.Field(i).CanSet() {
+				c.Field(i).Set(govcCopy(v.Field(i), depth+1))
+			}
+		}
+		return c
+	}
+	return v
+}
+
+func govcShow(v interface{}) string {
+	b, err := json.Marshal(v)
+	if err != nil || len(b) > 1500 {
+		s := fmt.Sprintf("%+v", v)
+		if len(s) > 1500 {
+			s = s[:1500] + "..."
+		}
+		return s
+	}
+	return string(b)
+}
+`
+
+// buildReplayTest returns the source of the in-package test for the failed postcondition, or an error when the
+// obligation is outside the class described at the top of this file.
+func buildReplayTest(P *Program, S *Specs, vc *FuncVC, label string, retSite string, trials int) (src string, note string, err error) {
+	fn := vc.fn
+	if fn == nil || fn.Parent() != nil || fn.Pkg == nil || fn.TypeParams().Len() > 0 || len(fn.TypeArgs()) > 0 {
+		return "", "", fmt.Errorf("not a plain top-level function or method")
+	}
+	con := vc.con
+	if con == nil {
+		return "", "", fmt.Errorf("no contract")
+	}
+	var clause *Clause
+	for _, en := range con.Ensures {
+		if en.Label == label || label == "*" {
+			// several clauses may share a label: all of them are checked together below
+			clause = en
+		}
+	}
+	if clause == nil {
+		return "", "", fmt.Errorf("clause %s is not a plain postcondition", label)
+	}
+	pkg := fn.Pkg.Pkg
+	g := &goGen{S: S, ctx: clause.Ctx, pkg: pkg, imports: map[string]string{}, pures: map[string]bool{}, rename: map[string]string{}, bound: map[string]bool{}, oldNames: map[string]string{}}
+	sig := fn.Signature
+	// parameters
+	type par struct{ name, ty string }
+	var pars []par
+	recvName := ""
+	params := fn.Params
+	for i, p := range params {
+		if !generatable(p.Type(), 0) {
+			return "", "", fmt.Errorf("parameter %s of type %s cannot be generated", p.Name(), typeString(p.Type()))
+		}
+		ts, ok := g.goTypeString(p.Type())
+		if !ok {
+			return "", "", fmt.Errorf("parameter type %s cannot be named in a test", typeString(p.Type()))
+		}
+		name := p.Name()
+		if name == "" || name == "_" {
+			name = fmt.Sprintf("govcArg%d", i)
+		}
+		if i == 0 && sig.Recv() != nil {
+			recvName = name
+		}
+		pars = append(pars, par{name, ts})
+		g.rename[name] = "in_" + name
+		g.oldNames[name] = "old_" + name
+	}
+	// results
+	nres := sig.Results().Len()
+	var rnames []string
+	for i := 0; i < nres; i++ {
+		rn := fmt.Sprintf("r%d", i)
+		rnames = append(rnames, rn)
+		g.rename[fmt.Sprintf("result%d", i)] = rn
+		if i == 0 {
+			g.rename["result"] = rn
+		}
+		if n := sig.Results().At(i).Name(); n != "" && n != "_" {
+			g.rename[n] = rn
+		}
+	}
+	// requires
+	var reqs []string
+	for _, r := range con.Requires {
+		g.ctx = r.Ctx
+		g.neg = 2
+		s, err := g.expr(r.Expr)
+		if err != nil {
+			return "", "", fmt.Errorf("precondition %q is not evaluable: %v", r.Raw, err)
+		}
+		reqs = append(reqs, s)
+	}
+	// the failed clause(s) with this label
+	var posts, raws []string
+	for _, en := range con.Ensures {
+		if en.Label != label && label != "*" {
+			continue
+		}
+		g.ctx = en.Ctx
+		g.neg = 0
+		s, err := g.expr(en.Expr)
+		if err != nil {
+			continue
+		}
+		posts = append(posts, s)
+		raws = append(raws, en.Raw)
+	}
+	if len(posts) == 0 {
+		return "", "", fmt.Errorf("clause %s is not evaluable on a concrete run (ghost predicates, fresh, or quantification over a type)", label)
+	}
+	// pure functions used (transitively)
+	var pureSrc []string
+	done := map[string]bool{}
+	for {
+		var todo []string
+		for n := range g.pures {
+			if !done[n] {
+				todo = append(todo, n)
+			}
+		}
+		if len(todo) == 0 {
+			break
+		}
+		sort.Strings(todo)
+		for _, n := range todo {
+			done[n] = true
+			pf := S.Pure[n]
+			g2 := &goGen{S: S, ctx: pf.Ctx, pkg: pkg, imports: g.imports, pures: g.pures, rename: map[string]string{}, bound: map[string]bool{}, oldNames: map[string]string{}, neg: 2}
+			var ps []string
+			for i, pn := range pf.Params {
+				ts, ok := g.goTypeString(pf.PTypes[i])
+				if !ok {
+					return "", "", fmt.Errorf("pure function %s has a parameter type that cannot be named", n)
+				}
+				ps = append(ps, pn+" "+ts)
+				g2.bound[pn] = true
+			}
+			rt, ok := g.goTypeString(pf.RType)
+			if !ok {
+				return "", "", fmt.Errorf("pure function %s has a result type that cannot be named", n)
+			}
+			body, err := g2.expr(pf.Body)
+			if err != nil {
+				return "", "", fmt.Errorf("pure function %s is not evaluable: %v", n, err)
+			}
+			pureSrc = append(pureSrc, fmt.Sprintf("func govcPure_%s(%s) %s { return %s }", n, strings.Join(ps, ", "), rt, body))
+		}
+	}
+	// string pool: constants of the function body and of the contract
+	pool := map[string]bool{"a": true, "b": true, "*": true, "x:y": true, "CN=a": true, "1.0.0": true}
+	for _, b := range fn.Blocks {
+		for _, ins := range b.Instrs {
+			for _, op := range ins.Operands(nil) {
+				if op == nil || *op == nil {
+					continue
+				}
+				if s, ok := constString(*op); ok && len(s) < 40 && len(pool) < 60 {
+					pool[s] = true
+				}
+			}
+		}
+	}
+	for _, m := range regexp.MustCompile(`"((?:[^"\\]|\\.){0,40})"`).FindAllStringSubmatch(strings.Join(raws, " "), -1) {
+		if u, err := strconv.Unquote(`"` + m[1] + `"`); err == nil {
+			pool[u] = true
+		}
+	}
+	var poolL []string
+	for s := range pool {
+		poolL = append(poolL, strconv.Quote(s))
+	}
+	sort.Strings(poolL)
+	// the call
+	var callArgs []string
+	start := 0
+	callee := fn.Name()
+	if sig.Recv() != nil {
+		start = 1
+		callee = "in_" + recvName + "." + fn.Name()
+	}
+	for _, p := range pars[start:] {
+		callArgs = append(callArgs, "in_"+p.name)
+	}
+	if sig.Variadic() && len(callArgs) > 0 {
+		callArgs[len(callArgs)-1] += "..."
+	}
+	needLog := false
+	for _, p := range fn.Params {
+		if strings.Contains(typeString(p.Type()), "notation-go/log.Logger") && pkg.Path() != repoModule+"/log" {
+			needLog = true
+		}
+	}
+	if needLog {
+		g.imports["govclog"] = repoModule + "/log"
+	}
+	var b strings.Builder
+	for _, im := range []string{"context", "encoding/json", "errors", "fmt", "io", "math/rand", "reflect", "strconv", "strings", "testing", "time", "crypto/sha256"} {
+		g.useImport(im)
+	}
+	fmt.Fprintf(&b, "package %s\n\nimport (\n", pkg.Name())
+	var als []string
+	for a := range g.imports {
+		als = append(als, a)
+	}
+	sort.Strings(als)
+	for _, a := range als {
+		if g.imports[a] == pkg.Path() {
+			continue
+		}
+		fmt.Fprintf(&b, "\t%s %q\n", a, g.imports[a])
+	}
+	b.WriteString(")\n\nvar _ = []interface{}{context.Background, json.Marshal, errors.New, fmt.Sprint, io.EOF, rand.Int, reflect.TypeOf, strconv.Itoa, strings.Cut, time.Now, sha256.Sum256")
+	for _, a := range als {
+		switch g.imports[a] {
+		case "context", "encoding/json", "errors", "fmt", "io", "math/rand", "reflect", "strconv", "strings", "testing", "time", "crypto/sha256", pkg.Path():
+			continue
+		}
+		b.WriteString(", govcUse_" + a)
+	}
+	b.WriteString("}\n")
+	// a harmless use of every other import (their use inside generated expressions is not guaranteed)
+	for _, a := range als {
+		switch g.imports[a] {
+		case "context", "encoding/json", "errors", "fmt", "io", "math/rand", "reflect", "strconv", "strings", "testing", "time", "crypto/sha256", pkg.Path():
+			continue
+		}
+		if ex := firstExported(P, g.imports[a]); ex != "" {
+			fmt.Fprintf(&b, "var govcUse_%s = func() interface{} { type t = struct{}; _ = t{}; return %s }\n", a, a+"."+ex)
+		} else {
+			fmt.Fprintf(&b, "var govcUse_%s = 0\n", a)
+		}
+	}
+	b.WriteString(replayHelpers)
+	// special generators
+	b.WriteString("\nfunc govcSpecial(t reflect.Type) (reflect.Value, bool) {\n")
+	if needLog {
+		b.WriteString("\tif t == reflect.TypeOf((*govclog.Logger)(nil)).Elem() {\n\t\treturn reflect.ValueOf(govclog.Discard), true\n\t}\n")
+	}
+	b.WriteString("\treturn reflect.Value{}, false\n}\n\n")
+	for _, ps := range pureSrc {
+		b.WriteString(ps + "\n")
+	}
+	fmt.Fprintf(&b, "\nfunc TestGovcReplay(t *testing.T) {\n\tg := &govcGen{r: rand.New(rand.NewSource(1)), strs: []string{%s}}\n", strings.Join(poolL, ", "))
+	fmt.Fprintf(&b, "\tfor trial := 0; trial < %d; trial++ {\n\t\tg.recent = g.recent[:0]\n", trials)
+	for _, p := range pars {
+		fmt.Fprintf(&b, "\t\tvar in_%s %s\n\t\tg.fill(reflect.ValueOf(&in_%s).Elem(), 0)\n", p.name, p.ty, p.name)
+	}
+	if len(reqs) > 0 {
+		fmt.Fprintf(&b, "\t\tif !(%s) {\n\t\t\tcontinue\n\t\t}\n", strings.Join(reqs, " && "))
+	}
+	for _, p := range pars {
+		fmt.Fprintf(&b, "\t\told_%s := govcCopy(reflect.ValueOf(&in_%s).Elem(), 0).Interface().(%s)\n\t\t_ = old_%s\n", p.name, p.name, p.ty, p.name)
+	}
+	var shows []string
+	for _, p := range pars {
+		shows = append(shows, fmt.Sprintf("%q + govcShow(old_%s)", p.name+" = ", p.name))
+	}
+	b.WriteString("\t\tinput := " + strings.Join(shows, " + \"; \" + ") + "\n")
+	b.WriteString("\t\tfunc() {\n\t\t\tdefer func() {\n\t\t\t\tif r := recover(); r != nil {\n\t\t\t\t\tfmt.Printf(\"GOVC-CEX panic %v on input %s\\n\", r, input)\n\t\t\t\t\tt.FailNow()\n\t\t\t\t}\n\t\t\t}()\n")
+	lhs := ""
+	if nres > 0 {
+		lhs = strings.Join(rnames, ", ") + " := "
+	}
+	fmt.Fprintf(&b, "\t\t\t%s%s(%s)\n", lhs, callee, strings.Join(callArgs, ", "))
+	for _, rn := range rnames {
+		fmt.Fprintf(&b, "\t\t\t_ = %s\n", rn)
+	}
+	for i, ps := range posts {
+		var rs []string
+		for _, rn := range rnames {
+			rs = append(rs, fmt.Sprintf("%q + govcShow(%s)", rn+" = ", rn))
+		}
+		res := `""`
+		if len(rs) > 0 {
+			res = strings.Join(rs, " + \"; \" + ")
+		}
+		fmt.Fprintf(&b, "\t\t\tif !(%s) {\n\t\t\t\tfmt.Printf(\"GOVC-CEX clause %%s violated on input %%s ; results %%s\\n\", %q, input, %s)\n\t\t\t\tt.FailNow()\n\t\t\t}\n", ps, raws[i], res)
+	}
+	b.WriteString("\t\t}()\n\t}\n}\n")
+	note = fmt.Sprintf("%d trial inputs generated from the parameter types; %d unevaluable conjunct(s) dropped", trials, g.dropped)
+	return b.String(), note, nil
+}
+
+func firstExported(P *Program, path string) string {
+	var p *types.Package
+	for _, sp := range P.SSA.AllPackages() {
+		if sp.Pkg.Path() == path {
+			p = sp.Pkg
+		}
+	}
+	if p == nil {
+		return ""
+	}
+	names := p.Scope().Names()
+	for _, n := range names {
+		o := p.Scope().Lookup(n)
+		if !o.Exported() {
+			continue
+		}
+		switch o.(type) {
+		case *types.Func, *types.Var:
+			return n
+		}
+	}
+	return ""
+}
+
+var reOblPost = regexp.MustCompile(`^(.*)/post:([^@]+)@ret(\d+)#\d+$`)
+
+// tryReplay attempts to find an input on which the real code violates the failed clause. It fills rep["replay"] and
+// returns true when a failing input was reproduced.
+func tryReplay(P *Program, S *Specs, vcs []*FuncVC, f failure, rep map[string]any) bool {
+	if os.Getenv("GOVC_NOREPLAY") != "" {
+		return false
+	}
+	m := reOblPost.FindStringSubmatch(f.Obligation)
+	if m == nil {
+		// an invariant, assertion or safety obligation: the run is judged by all plain postconditions of the function
+		// (and by not panicking)
+		if f.Func == "" {
+			rep["replay_note"] = "no concrete search for this kind of obligation"
+			return false
+		}
+		m = []string{"", f.Func, "*", "0"}
+	}
+	key, label, ret := m[1], m[2], m[3]
+	var vc *FuncVC
+	for _, v := range vcs {
+		if v.key == key {
+			vc = v
+		}
+	}
+	if vc == nil {
+		return false
+	}
+	src, note, err := buildReplayTest(P, S, vc, label, ret, 4000)
+	if err != nil {
+		rep["replay_note"] = "no concrete search: " + err.Error()
+		return false
+	}
+	out, cmdline, ok := runReplayTest(vc.fn.Pkg.Pkg.Path(), src)
+	rep["replay_search"] = note
+	rep["replay_test_source"] = src
+	rep["replay_command"] = cmdline
+	cex := ""
+	for _, ln := range strings.Split(out, "\n") {
+		if strings.HasPrefix(ln, "GOVC-CEX ") {
+			cex = strings.TrimPrefix(ln, "GOVC-CEX ")
+			break
+		}
+	}
+	if !ok {
+		rep["replay_note"] = "the generated test could not be run: " + trunc(out, 1200)
+		return false
+	}
+	if cex == "" {
+		rep["replay_note"] = "concrete search found no failing input among the generated ones"
+		return false
+	}
+	rep["replay"] = "failing-input-found"
+	rep["failing_input"] = cex
+	return true
+}
+
+// runReplayTest injects the test into the package with an overlay and runs it. ok is false when it did not build/run.
+func runReplayTest(pkgPath, src string) (out string, cmdline string, ok bool) {
+	rel := strings.TrimPrefix(strings.TrimPrefix(pkgPath, repoModule), "/")
+	dir := filepath.Join(repoDir(), rel)
+	tmp, err := os.MkdirTemp("", "govc-replay-")
+	if err != nil {
+		return err.Error(), "", false
+	}
+	defer os.RemoveAll(tmp)
+	tf := filepath.Join(tmp, "zz_govc_replay_test.go")
+	if err := os.WriteFile(tf, []byte(src), 0o644); err != nil {
+		return err.Error(), "", false
+	}
+	ov := map[string]any{"Replace": map[string]string{filepath.Join(dir, "zz_govc_replay_test.go"): tf}}
+	ob, _ := json.Marshal(ov)
+	of := filepath.Join(tmp, "overlay.json")
+	os.WriteFile(of, ob, 0o644)
+	ctx, cancel := context.WithTimeout(context.Background(), 150*time.Second)
+	defer cancel()
+	args := []string{"test", "-overlay", of, "-vet=off", "-count=1", "-timeout", "60s", "-run", "^TestGovcReplay$", "."}
+	cmd := exec.CommandContext(ctx, "go", args...)
+	cmd.Dir = dir
+	cmd.Env = append(os.Environ(), "GOFLAGS=-mod=mod", "GOPROXY=off", "GOSUMDB=off", "GOTOOLCHAIN=local")
+	var buf bytes.Buffer
+	cmd.Stdout = &buf
+	cmd.Stderr = &buf
+	runErr := cmd.Run()
+	out = buf.String()
+	cmdline = "cd " + dir + " && go " + strings.Join(args, " ") + "   (overlay: zz_govc_replay_test.go = replay_test_source of this file)"
+	if strings.Contains(out, "[build failed]") || strings.Contains(out, "[setup failed]") || (runErr != nil && !strings.Contains(out, "--- FAIL") && !strings.Contains(out, "GOVC-CEX")) {
+		return out, cmdline, false
+	}
+	return out, cmdline, true
+}
+
+// cmdReplay re-runs the test stored in a replay file against the current tree.
+func cmdReplay(args []string) int {
+	if len(args) < 1 {
+		fmt.Fprintln(os.Stderr, "usage: govc replay <replay file>")
+		return 2
+	}
+	b, err := os.ReadFile(args[0])
+	if err != nil {
+		fmt.Fprintln(os.Stderr, err)
+		return 2
+	}
+	var rep map[string]any
+	if json.Unmarshal(b, &rep) != nil {
+		fmt.Fprintln(os.Stderr, "not a replay file")
+		return 2
+	}
+	fmt.Printf("obligation: %v\nfunction:   %v\nwhere:      %v\ngoal:       %v\nsolvers:    %v\n", rep["obligation"], rep["function"], rep["where"], rep["goal"], rep["solvers_tried"])
+	src, _ := rep["replay_test_source"].(string)
+	if src == "" || rep["replay"] != "failing-input-found" {
+		fmt.Printf("replay:     no failing input was found for this obligation (%v)\n", rep["replay_note"])
+		return 0
+	}
+	fn, _ := rep["function"].(string)
+	P, err := LoadProgram()
+	if err != nil {
+		fmt.Fprintln(os.Stderr, err)
+		return 2
+	}
+	f := P.Func(fn)
+	if f == nil || f.Pkg == nil {
+		fmt.Println("replay:     the function no longer exists")
+		return 0
+	}
+	out, _, ok := runReplayTest(f.Pkg.Pkg.Path(), src)
+	if !ok {
+		fmt.Println("replay:     the stored test does not build against the current tree:\n" + trunc(out, 1500))
+		return 0
+	}
+	for _, ln := range strings.Split(out, "\n") {
+		if strings.HasPrefix(ln, "GOVC-CEX ") {
+			fmt.Println("replay:     REPRODUCED on the current tree: " + strings.TrimPrefix(ln, "GOVC-CEX "))
+			return 1
+		}
+	}
+	fmt.Println("replay:     not reproduced on the current tree (the stored inputs no longer violate the clause)")
+	return 0
+}
+
+var _ = ast.IsExported
